@@ -245,6 +245,12 @@ def case_scramble_history(col, p):
             N = sum(ns)
             data = (1.0 + (np.arange(int(np.prod(shape))) * 5 % 13).reshape(shape)) / 8.0
             fs = dadi.Spectrum(data)
+            if p.get('view'):
+                # the spectrum as reorder_pops hands it over: a transposed (non-contiguous) view of another array with the same values
+                perm = list(range(len(ns)))[::-1]
+                fs = dadi.Spectrum(np.ascontiguousarray(np.transpose(data, perm))).transpose(perm)
+                if not (np.array_equal(np.asarray(fs.data), data) and not fs.data.flags['C_CONTIGUOUS']):
+                    col.violation('harness:C10:view', dict(p), 'could not build a non-contiguous view')
             out = fs.scramble_pop_ids()
             col.tick(transitions=1)
             n += 1
@@ -261,9 +267,10 @@ def case_scramble_history(col, p):
                 ex = float(w / comb(N, sum(idx)) * pooled[sum(idx)])
                 worst = max(worst, abs(got[idx] - ex) / max(abs(ex), 1e-300))
             if not worst <= 1e-11:
-                col.violation('C10:scramble_pop_ids:result_depends_on_history', dict(p, sequences=[seq], position=k), {'maxrel': worst})
+                col.violation('C10:scramble_pop_ids:%s' % ('noncontiguous_view' if p.get('view') else 'result_depends_on_history'),
+                              dict(p, sequences=[seq], position=k), {'maxrel': worst})
     col.tick(states=n, traces=n)
-    col.distinct('nontrivial', ('scramble_history', len(p['sequences']), tuple(map(tuple, p['sequences'][0]))))
+    col.distinct('nontrivial', ('scramble_history', len(p['sequences']), tuple(map(tuple, p['sequences'][0])), bool(p.get('view'))))
 
 
 def case_bfs(col, p):
@@ -382,6 +389,7 @@ def run(ctx):
         seqs = [list(s_) for s_ in itertools.permutations(fam, 2 if ctx.quick else 3)]
         for lo in range(0, len(seqs), 10):
             cases.append({'kind': 'scramble_history', 'sequences': seqs[lo:lo + 10], 'ns': fam[0]})
+        cases.append({'kind': 'scramble_history', 'sequences': [[x] for x in fam], 'ns': fam[0], 'view': True})
     from mc.evidence import Collector
     a, b = Collector(), Collector()
     _dispatch(a, cases[1]); _dispatch(b, cases[1])
